@@ -429,6 +429,16 @@ Definition live (tbl : table) (r : registry) (cur href : text) : bool :=
 
 End WithQuote.
 
+(* ------------------------------------------------------------------ decidable well-formedness (sound: Proofs/SiteProofs.wf_b_sound) *)
+Definition wf_b (r : registry) : bool :=
+  let n := length (r_objs r) in
+  forallb (fun i => match parent_of r i with Some p => Nat.ltb p i && own_page r p | None => true end) (seq 0 n)
+  && forallb (fun p => forallb (fun c => Nat.ltb c n && match parent_of r c with Some q => Nat.eqb q p | None => false end)
+                               (contents_of r p)) (seq 0 n)
+  && forallb (fun o => Nat.ltb o n && match parent_of r o with None => true | Some _ => false end && own_page r o) (r_roots r)
+  && forallb (fun c => match module_of r c with Some m => own_page r m | None => true end) (seq 0 n).
+
+
 (* ------------------------------------------------------------------ urllib.parse.quote (safe = '/'), concrete *)
 Local Open Scope N_scope.
 Definition hexdigit (n : N) : N := if n <? 10 then 48 + n else 55 + n.        (* 0-9, A-F *)
@@ -473,7 +483,7 @@ Definition enc_entry (tbl : table) (r : registry) (e : entry) : sexp :=
 
 (* input  L [registry; depth; nosidebar]
    output L [files; anchors (file, name); entries (page, producer, object, href?, private);
-             per object (url, isVisible, fullName)] *)
+             per object (url, isVisible, fullName); wf_b registry] *)
 Definition run_with (tbl : table) (s : sexp) : sexp :=
   let r := dec_registry (nth_s 0 s) in
   let depth := to_nat (nth_s 1 s) in
@@ -482,4 +492,5 @@ Definition run_with (tbl : table) (s : sexp) : sexp :=
       of_list (fun x => L [of_text (fst x); of_text (snd x)]) (site_anchors cquote tbl r);
       of_list (enc_entry tbl r) (site_entries cquote tbl r depth nosb);
       of_list (fun i => L [of_text (url cquote r i); of_bool (visible r i); of_text (fullname r i)])
-              (seq 0 (length (r_objs r))) ].
+              (seq 0 (length (r_objs r)));
+      of_bool (wf_b r) ].
